@@ -350,7 +350,7 @@ pub fn run(ctx: &mut Ctx) {
     ];
     ctx.require_class::<IndexNameTranslation>("probed_index_on_exchange_not_starting_at_zero");
     ctx.run_regressions::<IndexNameTranslation>();
-    ctx.run::<IndexNameTranslation>(ctx.tier.pick(3_000, 60_000));
+    ctx.run::<IndexNameTranslation>(ctx.tier.pick(60_000, 800_000));
 }
 
 pub fn replay(ctx: &mut Ctx, doc: &Value) -> bool {
